@@ -115,6 +115,8 @@ class BitArray(Bits):
         if self._bitstore.immutable:
             self._bitstore = self._bitstore._copy()
             self._bitstore.immutable = False
+        # A mutable bitstring is no longer tied to the file it was created from.
+        self._filename = None
 
     def copy(self: TBits) -> TBits:
         """Return a copy of the bitstring."""
